@@ -37,6 +37,7 @@ Separate Extraction
   Dot.known_subacc
   Dot.known_phantom
   Dot.known_rx
+  Dot.wf_cdfa
   DotSpec.sub_ids
   DotRead.read
   DotRead.render_label
